@@ -1458,4 +1458,326 @@ theorem gen_Zone1970Location_read_eq (pol : Nat → Nat → Nat) (hp : PolicyOk 
                 · simp only [if_pos g2]
                 · simp only [if_neg g2]
 
+/-! ### the zones: `_FixedDateTimeZone.read`, `_StandardDaylightAlternatingMap._read`, `_PrecalculatedDateTimeZone._read` -/
+
+theorem pure_wf {α} (fM : RM α) (f : Bytes → R (α × Bytes)) (hP : Pres fM) (m : RState) (hm : WF m) (hr : fM m = C14.lift f m)
+    (v : α) (r : Bytes) (h : f m.abs = .ok (v, r)) : BOK r :=
+  (wf_rest m r).1 (hP m v (rest m r) hm (by rw [hr]; simp only [C14.lift, h]; rfl))
+
+theorem pure_bok {α} (fM : RM α) (f : Bytes → R (α × Bytes)) (hP : Pres fM) (hr : C14.Ref none fM f)
+    (bs : Bytes) (v : α) (r : Bytes) (h : f bs = .ok (v, r)) (hb : BOK bs) : BOK r :=
+  pure_wf fM f hP ⟨bs, none, none⟩ ((wf_rest ⟨bs, none, none⟩ bs).2 hb) (hr ⟨bs, none, none⟩ rfl) v r h
+
+theorem ro_eq (pol : Nat → Nat → Nat) (hp : PolicyOk pol) (m : RState) (hm : WF m) :
+    Gen.C14.Reader.readOffset (ofM pol m) = (match readOffset m.abs with
+      | .ok (v, r) => .ok (v, ofM pol (rest m r))
+      | .error e => .error e) := by
+  rw [gen_Reader_readOffset_eq pol hp m hm, C14.readOffsetM_refines m.pool m rfl]
+  simp only [C14.lift]
+  rcases h : readOffset m.abs with er | ⟨v, r⟩ <;> rfl
+
+theorem readOffset_bok (bs : Bytes) (v : Offset) (r : Bytes) (h : readOffset bs = .ok (v, r)) (hb : BOK bs) : BOK r :=
+  pure_bok readOffsetM readOffset readOffsetM_pres (C14.readOffsetM_refines none) bs v r h hb
+
+theorem rb_eq (pol : Nat → Nat → Nat) (hp : PolicyOk pol) (m : RState) :
+    Gen.C14.Reader.readByte (ofM pol m) = (match readByte m.abs with
+      | .ok (v, r) => .ok ((v : Int), ofM pol (rest m r))
+      | .error e => .error e) := by
+  rw [gen_Reader_readByte_eq pol hp m, C14.readByteM_refines m.pool m rfl]
+  simp only [C14.lift]
+  rcases h : readByte m.abs with er | ⟨v, r⟩ <;> rfl
+
+theorem readByte_bok (bs : Bytes) (v : Nat) (r : Bytes) (h : readByte bs = .ok (v, r)) (hb : BOK bs) : BOK r :=
+  pure_bok readByteM readByte readByteM_pres (C14.readByteM_refines none) bs v r h hb
+
+theorem rtn_eq (pol : Nat → Nat → Nat) (hp : PolicyOk pol) (m : RState) (hm : WF m) :
+    Gen.C14.Reader.readTransitionNone (ofM pol m) = (match readTransition none m.abs with
+      | .ok (v, r) => .ok (v, ofM pol (rest m r))
+      | .error e => .error e) := by
+  rw [gen_Reader_readTransitionNone_eq pol hp m hm, C14.readTransitionM_refines m.pool none m rfl]
+  simp only [C14.lift]
+  rcases h : readTransition none m.abs with er | ⟨v, r⟩ <;> rfl
+
+theorem rts_eq (pol : Nat → Nat → Nat) (hp : PolicyOk pol) (m : RState) (hm : WF m) (previous : Instant) :
+    Gen.C14.Reader.readTransitionSome (ofM pol m) previous = (match readTransition (some previous) m.abs with
+      | .ok (v, r) => .ok (v, ofM pol (rest m r))
+      | .error e => .error e) := by
+  rw [gen_Reader_readTransitionSome_eq pol hp m hm previous, C14.readTransitionM_refines m.pool (some previous) m rfl]
+  simp only [C14.lift]
+  rcases h : readTransition (some previous) m.abs with er | ⟨v, r⟩ <;> rfl
+
+theorem readTransition_bok (previous : Option Instant) (bs : Bytes) (v : Instant) (r : Bytes)
+    (h : readTransition previous bs = .ok (v, r)) (hb : BOK bs) : BOK r :=
+  pure_bok (readTransitionM previous) (readTransition previous) (readTransitionM_pres previous)
+    (C14.readTransitionM_refines none previous) bs v r h hb
+
+theorem ryo_eq (pol : Nat → Nat → Nat) (hp : PolicyOk pol) (m : RState) (hm : WF m) :
+    Gen.C14.YearOffset.read (ofM pol m) = (match readYearOffset m.abs with
+      | .ok (v, r) => .ok (v, ofM pol (rest m r))
+      | .error e => .error e) := by
+  rw [gen_YearOffset_read_eq pol hp m hm, C14.readYearOffsetM_refines m.pool m rfl]
+  simp only [C14.lift]
+  rcases h : readYearOffset m.abs with er | ⟨v, r⟩ <;> rfl
+
+theorem readYearOffset_bok (bs : Bytes) (v : ZoneYearOffset) (r : Bytes) (h : readYearOffset bs = .ok (v, r)) (hb : BOK bs) : BOK r :=
+  pure_bok readYearOffsetM readYearOffset readYearOffsetM_pres (C14.readYearOffsetM_refines none) bs v r h hb
+
+/-- `has_more_data` at the end of the data: false, nothing changes -/
+theorem hm_nil (pol : Nat → Nat → Nat) (hp : PolicyOk pol) (m : RState) :
+    Gen.C14.Reader.hasMoreData (ofM pol (rest m [])) = .ok (false, ofM pol (rest m [])) := by
+  rw [gen_Reader_hasMoreData_eq pol hp (rest m [])]; rfl
+
+/-- `has_more_data` with data left: true, and one byte has moved from the stream into the look-ahead buffer -/
+theorem hm_cons (pol : Nat → Nat → Nat) (hp : PolicyOk pol) (m : RState) (b : Nat) (r : Bytes) :
+    Gen.C14.Reader.hasMoreData (ofM pol (rest m (b :: r))) = .ok (true, ofM pol ⟨r, some b, m.pool⟩) := by
+  rw [gen_Reader_hasMoreData_eq pol hp (rest m (b :: r))]; rfl
+
+theorem wf_buffered (m : RState) (b : Nat) (r : Bytes) (hb : BOK (b :: r)) : WF ⟨r, some b, m.pool⟩ := by
+  unfold WF
+  constructor
+  · intro x hx; exact hb x (List.mem_cons_of_mem _ hx)
+  · intro x hx
+    cases hx
+    exact hb b (by simp)
+
+/-- `_FixedDateTimeZone.read(reader, id_)` is the model's `readFixed` on the bytes at hand -/
+theorem gen_FixedZone_read_eq (pol : Nat → Nat → Nat) (hp : PolicyOk pol) (m : RState) (hm : WF m) (id : Str) :
+    Gen.C14.FixedZone.read (ofM pol m) id = (match readFixed m.pool id m.abs with
+      | .ok (v, r) => .ok (v, ofM pol (rest m r))
+      | .error e => .error e) := by
+  unfold Gen.C14.FixedZone.read readFixed
+  rw [ro_eq pol hp m hm]
+  rcases h1 : readOffset m.abs with er | ⟨o, r1⟩
+  · rfl
+  · have b1 := pure_wf readOffsetM readOffset readOffsetM_pres m hm (C14.readOffsetM_refines m.pool m rfl) o r1 h1
+    simp only [ok_bind]
+    cases r1 with
+    | nil =>
+      rw [hm_nil pol hp m]
+      rfl
+    | cons b r =>
+      rw [hm_cons pol hp m b r]
+      simp only [ok_bind]
+      have hh : hasMoreData (b :: r) = true := rfl
+      simp only [if_true, if_pos hh]
+      rw [rs_eq pol hp ⟨r, some b, m.pool⟩ (wf_buffered m b r b1)]
+      show (match readString m.pool (b :: r) with
+        | .ok (v, r2) => (.ok (v, ofM pol (rest m r2)) : R (Str × RS))
+        | .error e => .error e) >>= _ = _
+      rcases h2 : readString m.pool (b :: r) with er | ⟨nm, r2⟩
+      · rfl
+      · rfl
+
+/-- a recurrence with both year bounds infinite: the constructor evaluates no yearly occurrence -/
+theorem mkRecurrence_inf (n : Str) (s : Offset) (y : ZoneYearOffset) :
+    mkRecurrence n s y (-2147483648) 2147483647 = .ok ⟨n, s, y, INT_MIN, INT_MAX⟩ := by
+  rfl
+
+/-- `_StandardDaylightAlternatingMap._read(reader)` is the model's `readAlternatingMap` on the bytes at hand -/
+theorem gen_AltMap_read_eq (pol : Nat → Nat → Nat) (hp : PolicyOk pol) (m : RState) (hm : WF m) :
+    Gen.C14.AltMap.read (ofM pol m) = (match readAlternatingMap m.pool m.abs with
+      | .ok (v, r) => .ok (v, ofM pol (rest m r))
+      | .error e => .error e) := by
+  unfold Gen.C14.AltMap.read readAlternatingMap
+  rw [ro_eq pol hp m hm]
+  rcases h1 : readOffset m.abs with er | ⟨so, r1⟩
+  · rfl
+  · have b1 := pure_wf readOffsetM readOffset readOffsetM_pres m hm (C14.readOffsetM_refines m.pool m rfl) so r1 h1
+    simp only [ok_bind]
+    rw [rs_eq pol hp (rest m r1) ((wf_rest m r1).2 b1), rest_abs, rest_pool]
+    rcases h2 : readString m.pool r1 with er | ⟨sn, r2⟩
+    · rfl
+    · have b2 := readString_bok m.pool r1 sn r2 h2 b1
+      simp only [ok_bind, rest_rest]
+      rw [ryo_eq pol hp (rest m r2) ((wf_rest m r2).2 b2), rest_abs]
+      rcases h3 : readYearOffset r2 with er | ⟨sy, r3⟩
+      · rfl
+      · have b3 := readYearOffset_bok r2 sy r3 h3 b2
+        simp only [ok_bind, rest_rest]
+        rw [rs_eq pol hp (rest m r3) ((wf_rest m r3).2 b3), rest_abs, rest_pool]
+        rcases h4 : readString m.pool r3 with er | ⟨dn, r4⟩
+        · rfl
+        · have b4 := readString_bok m.pool r3 dn r4 h4 b3
+          simp only [ok_bind, rest_rest]
+          rw [ryo_eq pol hp (rest m r4) ((wf_rest m r4).2 b4), rest_abs]
+          rcases h5 : readYearOffset r4 with er | ⟨dy, r5⟩
+          · rfl
+          · have b5 := readYearOffset_bok r4 dy r5 h5 b4
+            simp only [ok_bind, rest_rest]
+            rw [ro_eq pol hp (rest m r5) ((wf_rest m r5).2 b5), rest_abs]
+            rcases h6 : readOffset r5 with er | ⟨sv, r6⟩
+            · rfl
+            · simp only [ok_bind, rest_rest, mkRecurrence_inf]
+              show (alternatingMapCtor so ⟨sn, ⟨0⟩, sy, INT_MIN, INT_MAX⟩ ⟨dn, sv, dy, INT_MIN, INT_MAX⟩ >>= fun r =>
+                (.ok (r, ofM pol (rest m r6)) : R (AlternatingMap × RS))) = _
+              cases alternatingMapCtor so ⟨sn, ⟨0⟩, sy, INT_MIN, INT_MAX⟩ ⟨dn, sv, dy, INT_MIN, INT_MAX⟩ <;> rfl
+
+theorem readAlternatingMap_bok (pool : Pool) (bs : Bytes) (v : AlternatingMap) (r : Bytes)
+    (h : readAlternatingMap pool bs = .ok (v, r)) (hb : BOK bs) : BOK r := by
+  unfold readAlternatingMap at h
+  rcases h1 : readOffset bs with er | ⟨so, r1⟩
+  · rw [h1] at h; cases h
+  · have b1 := readOffset_bok bs so r1 h1 hb
+    rw [h1] at h; simp only [ok_bind] at h
+    rcases h2 : readString pool r1 with er | ⟨sn, r2⟩
+    · rw [h2] at h; cases h
+    · have b2 := readString_bok pool r1 sn r2 h2 b1
+      rw [h2] at h; simp only [ok_bind] at h
+      rcases h3 : readYearOffset r2 with er | ⟨sy, r3⟩
+      · rw [h3] at h; cases h
+      · have b3 := readYearOffset_bok r2 sy r3 h3 b2
+        rw [h3] at h; simp only [ok_bind] at h
+        rcases h4 : readString pool r3 with er | ⟨dn, r4⟩
+        · rw [h4] at h; cases h
+        · have b4 := readString_bok pool r3 dn r4 h4 b3
+          rw [h4] at h; simp only [ok_bind] at h
+          rcases h5 : readYearOffset r4 with er | ⟨dy, r5⟩
+          · rw [h5] at h; cases h
+          · have b5 := readYearOffset_bok r4 dy r5 h5 b4
+            rw [h5] at h; simp only [ok_bind] at h
+            rcases h6 : readOffset r5 with er | ⟨sv, r6⟩
+            · rw [h6] at h; cases h
+            · have b6 := readOffset_bok r5 sv r6 h6 b5
+              rw [h6] at h; simp only [ok_bind] at h
+              rcases h7 : alternatingMapCtor so ⟨sn, ⟨0⟩, sy, INT_MIN, INT_MAX⟩ ⟨dn, sv, dy, INT_MIN, INT_MAX⟩ with er | am
+              · rw [h7] at h; cases h
+              · rw [h7] at h; simp only [ok_bind] at h
+                cases h; exact b6
+
+/-- `start` after the period loop: the end of the last period read -/
+def endOf (start : Instant) : List ZoneInterval → Instant
+  | [] => start
+  | p :: ps => endOf p.rawEnd ps
+
+/-- the period loop of `_PrecalculatedDateTimeZone._read` -/
+theorem gen_PrecalcZone_read_loop1_eq (pol : Nat → Nat → Nat) (hp : PolicyOk pol) : ∀ (fuel k i : Nat) (acc : List ZoneInterval) (start : Instant)
+    (m : RState) (r0 : Bytes), BOK r0 → k < fuel →
+    Gen.C14.PrecalcZone.read.loop1 ((i + k : Nat) : Int) fuel (i : Int) acc start (ofM pol (rest m r0)) =
+      (match readPeriods m.pool k start r0 with
+       | .ok (ps, r) => .ok (((i + k : Nat) : Int), acc ++ ps, endOf start ps, ofM pol (rest m r))
+       | .error e => .error e) := by
+  intro fuel
+  induction fuel with
+  | zero => intro _ _ _ _ _ _ _ h; omega
+  | succ fuel ih =>
+    intro k i acc start m r0 hb hlt
+    unfold Gen.C14.PrecalcZone.read.loop1
+    cases k with
+    | zero =>
+      rw [if_neg (by omega)]
+      simp [readPeriods, endOf]
+    | succ k =>
+      rw [if_pos (by omega), rs_eq pol hp (rest m r0) ((wf_rest m r0).2 hb), rest_abs, rest_pool]
+      simp only [readPeriods]
+      rcases h1 : readString m.pool r0 with er | ⟨nm, r1⟩
+      · rfl
+      · have b1 := readString_bok m.pool r0 nm r1 h1 hb
+        simp only [ok_bind, rest_rest]
+        rw [ro_eq pol hp (rest m r1) ((wf_rest m r1).2 b1), rest_abs]
+        rcases h2 : readOffset r1 with er | ⟨wall, r2⟩
+        · rfl
+        · have b2 := readOffset_bok r1 wall r2 h2 b1
+          simp only [ok_bind, rest_rest]
+          rw [ro_eq pol hp (rest m r2) ((wf_rest m r2).2 b2), rest_abs]
+          rcases h3 : readOffset r2 with er | ⟨sav, r3⟩
+          · rfl
+          · have b3 := readOffset_bok r2 sav r3 h3 b2
+            simp only [ok_bind, rest_rest]
+            rw [rts_eq pol hp (rest m r3) ((wf_rest m r3).2 b3) start, rest_abs]
+            rcases h4 : readTransition (some start) r3 with er | ⟨next, r4⟩
+            · rfl
+            · have b4 := readTransition_bok (some start) r3 next r4 h4 b3
+              simp only [ok_bind, rest_rest]
+              unfold zoneIntervalCtor
+              by_cases hge : Duration.ge start.dur next.dur = true
+              · simp only [if_pos hge, err_bind]
+              · simp only [if_neg hge, ok_bind, Gen.pyListAppend]
+                have hi : ((i : Int) + 1) = ((i + 1 : Nat) : Int) := by omega
+                have hik : i + (k + 1) = (i + 1) + k := by omega
+                rw [hi, hik, ih k (i + 1) (acc ++ [⟨nm, start, next, wall, sav⟩]) next m r4 b4 (by omega)]
+                rcases h5 : readPeriods m.pool k next r4 with er | ⟨ps, r5⟩
+                · rfl
+                · simp [ok_bind, endOf]
+
+theorem readPeriods_bok (pool : Pool) : ∀ (k : Nat) (start : Instant) (bs : Bytes) (ps : List ZoneInterval) (r : Bytes),
+    readPeriods pool k start bs = .ok (ps, r) → BOK bs → BOK r := by
+  intro k
+  induction k with
+  | zero =>
+    intro start bs ps r h hb
+    simp only [readPeriods] at h
+    cases h; exact hb
+  | succ k ih =>
+    intro start bs ps r h hb
+    simp only [readPeriods] at h
+    rcases h1 : readString pool bs with er | ⟨nm, r1⟩
+    · rw [h1] at h; cases h
+    · have b1 := readString_bok pool bs nm r1 h1 hb
+      rw [h1] at h; simp only [ok_bind] at h
+      rcases h2 : readOffset r1 with er | ⟨wall, r2⟩
+      · rw [h2] at h; cases h
+      · have b2 := readOffset_bok r1 wall r2 h2 b1
+        rw [h2] at h; simp only [ok_bind] at h
+        rcases h3 : readOffset r2 with er | ⟨sav, r3⟩
+        · rw [h3] at h; cases h
+        · have b3 := readOffset_bok r2 sav r3 h3 b2
+          rw [h3] at h; simp only [ok_bind] at h
+          rcases h4 : readTransition (some start) r3 with er | ⟨next, r4⟩
+          · rw [h4] at h; cases h
+          · have b4 := readTransition_bok (some start) r3 next r4 h4 b3
+            rw [h4] at h; simp only [ok_bind] at h
+            rcases h5 : zoneIntervalCtor nm start next wall sav with er | p
+            · rw [h5] at h; cases h
+            · rw [h5] at h; simp only [ok_bind] at h
+              rcases h6 : readPeriods pool k next r4 with er | ⟨qs, r5⟩
+              · rw [h6] at h; cases h
+              · rw [h6] at h; simp only [ok_bind] at h
+                cases h
+                exact ih next r4 qs r h6 b4
+
+/-- `_PrecalculatedDateTimeZone._read(reader, id_)` is the model's `readPrecalculated` (decoding, then the checks of the
+    constructor) on the bytes at hand -/
+theorem gen_PrecalcZone_read_eq (pol : Nat → Nat → Nat) (hp : PolicyOk pol) (m : RState) (hm : WF m) (id : Str) :
+    Gen.C14.PrecalcZone.read (ofM pol m) id = (match readPrecalculated m.pool id m.abs with
+      | .ok (v, r) => .ok (v, ofM pol (rest m r))
+      | .error e => .error e) := by
+  unfold Gen.C14.PrecalcZone.read readPrecalculated readPrecalculatedData
+  rw [rc_eq pol hp m]
+  rcases h1 : readCount m.abs with er | ⟨size, r1⟩
+  · rfl
+  · have w1 := rc_wf m hm size r1 h1
+    have b1 := (wf_rest m r1).1 w1.1
+    simp only [ok_bind]
+    rw [rtn_eq pol hp (rest m r1) w1.1, rest_abs]
+    rcases h2 : readTransition none r1 with er | ⟨start, r2⟩
+    · rfl
+    · have b2 := readTransition_bok none r1 start r2 h2 b1
+      simp only [ok_bind, rest_rest]
+      have hl := gen_PrecalcZone_read_loop1_eq pol hp (size.toNat + 1) size.toNat 0 [] start m r2 b2 (Nat.lt_succ_self _)
+      have hnn : ((0 + size.toNat : Nat) : Int) = size := by have := w1.2; omega
+      have h0 : ((0 : Nat) : Int) = 0 := rfl
+      rw [hnn, h0] at hl
+      rw [hl]
+      rcases h3 : readPeriods m.pool size.toNat start r2 with er | ⟨ps, r3⟩
+      · rfl
+      · have b3 := readPeriods_bok m.pool size.toNat start r2 ps r3 h3 b2
+        simp only [ok_bind, List.nil_append]
+        rw [rb_eq pol hp (rest m r3), rest_abs]
+        rcases h4 : readByte r3 with er | ⟨flag, r4⟩
+        · rfl
+        · have b4 := readByte_bok r3 flag r4 h4 b3
+          simp only [ok_bind, rest_rest]
+          by_cases hf : flag = 1
+          · have hf' : (flag : Int) = 1 := by omega
+            rw [if_pos hf', if_pos hf]
+            rw [gen_AltMap_read_eq pol hp (rest m r4) ((wf_rest m r4).2 b4), rest_abs, rest_pool]
+            rcases h5 : readAlternatingMap m.pool r4 with er | ⟨am, r5⟩
+            · rfl
+            · simp only [ok_bind, rest_rest, mkPrecalculated]
+              cases precalculatedCtor ⟨id, ps, some am⟩ <;> rfl
+          · have hf' : ¬ (flag : Int) = 1 := by omega
+            rw [if_neg hf', if_neg hf]
+            simp only [ok_bind, mkPrecalculated]
+            cases precalculatedCtor ⟨id, ps, none⟩ <;> rfl
+
 end Pyoda.GenAgree.C14
